@@ -106,6 +106,10 @@ def build_engine(name, san=True, cov=False):
     d = os.path.join(BUILD, '%s-%s%s' % (name, key, '-cov' if cov else '' if san else '-plain'))
     exe = os.path.join(d, name)
     if os.path.exists(exe):
+        try:
+            os.utime(d, None)       # mark as in use: prune_build removes the least recently used directories
+        except OSError:
+            pass
         return exe
     tmp = d + '.tmp%d' % os.getpid()
     shutil.rmtree(tmp, ignore_errors=True)
@@ -772,14 +776,21 @@ def mutant(patch, props):
         prune_build()
 
 
-def prune_build(keep=24):
-    """Keep the build cache small: remove the oldest engine build directories."""
+def prune_build(keep=64, min_age_s=6 * 3600):
+    """Keep the build cache small: remove the least recently used engine build directories, but never one that
+    was used in the last hours (a long-running check may still be executing from it)."""
     try:
-        ds = [os.path.join(BUILD, d) for d in os.listdir(BUILD) if d != 'out']
+        ds = [os.path.join(BUILD, d) for d in os.listdir(BUILD) if d not in ('out', 'covraw')]
     except OSError:
         return
+    now = time.time()
     ds.sort(key=lambda d: os.path.getmtime(d))
     for d in ds[:-keep]:
+        try:
+            if now - os.path.getmtime(d) < min_age_s:
+                continue
+        except OSError:
+            continue
         shutil.rmtree(d, ignore_errors=True)
 
 
